@@ -17,7 +17,7 @@ from mc.streams import run_reader, item_sigs
 PROP = "C10"
 BUFSIZES = (1, 2, 3, 4, 7, 4096)
 ENDS = ("close", "timeout", "reset")
-CFGS = [dict(quitonerror=1, handler=True), dict(quitonerror=0, validate=0, msgmode=1)]
+CFGS = [dict(quitonerror=1, handler=True), dict(quitonerror=0, validate=0, msgmode=1, protfilter=5)]
 
 _NS = ref.nmea_sentence("GNZDA,,,,,,")
 COMPACT = {
